@@ -34,6 +34,17 @@ fn exit_this_thread() -> ! {
 #[cfg(not(all(target_arch = "x86_64", target_os = "linux")))]
 fn exit_this_thread() -> ! { loop { std::thread::park() } }
 
+/// kernel thread id of the caller (0 where unavailable) and the scheduling state letter of a thread of this process ('R' running / runnable, 'S' sleeping in a wait, ...)
+#[cfg(all(target_arch = "x86_64", target_os = "linux", not(miri)))]
+pub fn os_tid() -> u32 { let r: i64; unsafe { std::arch::asm!("syscall", inlateout("rax") 186i64 => r, out("rcx") _, out("r11") _, options(nostack)) } r as u32 }
+#[cfg(not(all(target_arch = "x86_64", target_os = "linux", not(miri))))]
+pub fn os_tid() -> u32 { 0 }
+pub fn os_thread_state(tid: u32) -> Option<char> {
+    if tid == 0 { return None }
+    let s = std::fs::read_to_string(format!("/proc/self/task/{tid}/stat")).ok()?;
+    s.rsplit_once(") ")?.1.chars().next()
+}
+
 #[allow(clippy::declare_interior_mutable_const)]
 const ZERO64: AtomicU64 = AtomicU64::new(0);
 pub static SITE_HITS: [AtomicU64; MAX_SITES] = [ZERO64; MAX_SITES];
@@ -135,13 +146,18 @@ pub struct RunCfg {
     /// help is making progress either -- instead of an inconclusive run. (The streak rule cannot see a retry loop that passes through non-loop sites, e.g. one that
     /// re-reserves and re-queries on every round.)
     pub per_op_step_bound: u64,
+    /// SER: the thread that holds the token has passed no hook site for 2 s and its kernel thread is *sleeping* (state 'S' at two looks 0.5 s apart): it sits in a
+    /// blocking wait inside the operation it called. Under the conductor every other thread is suspended, so in this run nobody will ever end that wait -- for a
+    /// workload whose operations are meant to return instead of waiting (C16: a send on a full buffer) that is the stall verdict; without this flag it is what it
+    /// always was: a run for the wall-clock watchdog (inconclusive). A thread that is merely starved of CPU is in state 'R', never 'S'.
+    pub blocked_token_holder_is_stall: bool,
 }
 impl RunCfg {
     pub fn ser(seed: u64, strategy: Strategy) -> Self {
-        Self { lane: Lane::Ser, seed, strategy, max_steps: 200_000, stall_k: 600, chaos: 0, watchdog: Duration::from_secs(30), trace: false, lone_thread_step_cap_is_stall: false, pause_marked_only: false, per_op_step_bound: 0 }
+        Self { lane: Lane::Ser, seed, strategy, max_steps: 200_000, stall_k: 600, chaos: 0, watchdog: Duration::from_secs(30), trace: false, lone_thread_step_cap_is_stall: false, pause_marked_only: false, per_op_step_bound: 0, blocked_token_holder_is_stall: false }
     }
     pub fn free(seed: u64, chaos: u8) -> Self {
-        Self { lane: Lane::Free, seed, strategy: Strategy::Random { p_pct: 0 }, max_steps: u64::MAX, stall_k: 0, chaos, watchdog: Duration::from_secs(30), trace: false, lone_thread_step_cap_is_stall: false, pause_marked_only: false, per_op_step_bound: 0 }
+        Self { lane: Lane::Free, seed, strategy: Strategy::Random { p_pct: 0 }, max_steps: u64::MAX, stall_k: 0, chaos, watchdog: Duration::from_secs(30), trace: false, lone_thread_step_cap_is_stall: false, pause_marked_only: false, per_op_step_bound: 0, blocked_token_holder_is_stall: false }
     }
 }
 
@@ -406,6 +422,7 @@ struct Th {
     pause_until: u64,
     prio:       i64,
     marked:     bool,
+    os_tid:     u32,
     /// steps of this thread since it last completed an operation of its script
     op_steps:   u64,
 }
@@ -431,6 +448,7 @@ struct St {
     pct_changes:  Vec<u64>,
     prio_floor:   i64,
     done_threads: usize,
+    blocked_in_a_wait: bool,
     /// a thread released by `resume_paused` runs first for that many scheduling decisions (as long as it can)
     favor:        Option<(usize, u32)>,
 }
@@ -706,7 +724,7 @@ fn panic_msg(e: Box<dyn std::any::Any + Send>) -> String {
 fn run_ser(cfg: &RunCfg, bodies: Vec<Body>) -> Report {
     let n = bodies.len();
     let mut rng = Rng::new(cfg.seed);
-    let mut th: Vec<Th> = (0..n).map(|_| Th { status: Status::NotStarted, streak: 0, h_streak: 0, last_site: u32::MAX, park_abort: false, pause_until: 0, prio: 0, marked: false, op_steps: 0 }).collect();
+    let mut th: Vec<Th> = (0..n).map(|_| Th { status: Status::NotStarted, streak: 0, h_streak: 0, last_site: u32::MAX, park_abort: false, pause_until: 0, prio: 0, marked: false, os_tid: 0, op_steps: 0 }).collect();
     let mut pct_changes = Vec::new();
     if let Strategy::Pct { depth, est_steps } = cfg.strategy {
         let mut prios: Vec<i64> = (0..n as i64).map(|i| i + depth as i64).collect();
@@ -717,7 +735,7 @@ fn run_ser(cfg: &RunCfg, bodies: Vec<Body>) -> Report {
     let sh = Arc::new(Shared {
         m: Mutex::new(St {
             current: NONE, th, rng, step: 0, switches: 0, hash: cfg.seed, cfg: cfg.clone(), abort: false, outcome: None, quiescent: None,
-            panics: Vec::new(), trace: Vec::new(), since_switch: 0, pause_count: 0, pause_done: false, pause_hit: false, favor: None,
+            panics: Vec::new(), trace: Vec::new(), since_switch: 0, pause_count: 0, pause_done: false, pause_hit: false, favor: None, blocked_in_a_wait: false,
             pct_changes, prio_floor: 0, done_threads: 0,
         }),
         cvs: (0..n).map(|_| Condvar::new()).collect(),
@@ -733,6 +751,7 @@ fn run_ser(cfg: &RunCfg, bodies: Vec<Body>) -> Report {
             {
                 let mut st = sh.m.lock().unwrap();
                 st.th[tid].status = Status::Runnable;
+                st.th[tid].os_tid = os_tid();
                 started.fetch_add(1, SeqCst);
                 sh.main.notify_all();
                 // wait for the token
@@ -751,10 +770,33 @@ fn run_ser(cfg: &RunCfg, bodies: Vec<Body>) -> Report {
     // wait for the end
     let deadline = Instant::now() + cfg.watchdog;
     let mut watchdog = false;
+    let (mut last_step, mut last_change, mut asleep_since) = (st.step, Instant::now(), None::<Instant>);
     while st.done_threads < n {
         let (g, to) = sh.main.wait_timeout(st, Duration::from_millis(200)).unwrap();
         st = g;
         if to.timed_out() && Instant::now() > deadline { watchdog = true; break }
+        if cfg.blocked_token_holder_is_stall && !st.abort {
+            if st.step != last_step { last_step = st.step; last_change = Instant::now(); asleep_since = None }
+            else if last_change.elapsed() > Duration::from_secs(2) && st.current != NONE {
+                let who = st.current;
+                match os_thread_state(st.th[who].os_tid) {
+                    Some('S') => match asleep_since {
+                        None => asleep_since = Some(Instant::now()),
+                        Some(t) if t.elapsed() > Duration::from_millis(500) => {
+                            let site = st.th[who].last_site;
+                            let gated = st.th.iter().enumerate().filter(|(_, t)| t.status == Status::Gated).map(|(i, _)| i).collect();
+                            sh.do_abort(&mut st, Outcome::Stall { spinners: vec![(who, site)], gated });
+                            st.blocked_in_a_wait = true;
+                            LEAKED_THREADS.fetch_add(1, SeqCst);      // (the sleeper itself: it will never come back)
+                            eprintln!("rmv: the token holder t{who} sleeps in a blocking wait (last site {}): stall", site_name(site));
+                            break;
+                        }
+                        _ => {}
+                    },
+                    _ => asleep_since = None,
+                }
+            }
+        }
     }
     if watchdog {
         // a thread runs without reaching a hook site (or the machine is overloaded): inconclusive; leak everything
